@@ -17,7 +17,7 @@ def main():
         for depth, ups in cfgs:
             stubs.PARAMS['depth'], stubs.PARAMS['updates'] = depth, ups
             label = '%s[depth=%d,updates=%d]' % (e, depth, ups)
-            res, ex = driver.run_entry(run, prog, e, stubs.make_stubs(), loop_bound=40, max_paths=100000, label=label)
+            res, ex = driver.run_entry(run, prog, e, stubs.make_stubs(), loop_bound=160, max_paths=200000, label=label)
             run.log(label, run.extra['paths'].get(label), 'solver calls', ex.solver_calls, '%.1fs' % ex.solver_time)
             nv = len(run.violations)
             driver.report(run, ex, 'poseidon_tree', 'poseidon_tree', HARNESS, e, res, label=label)
